@@ -776,7 +776,12 @@ func writeEvidence(prop, tier string, seed int64, spec *Spec, prog *ssa.Program,
 	}
 	sort.Strings(names)
 	for _, n := range names {
-		if strings.Contains(n, "github.com/mimecast/dtail") && !strings.Contains(n, "verifrt") && !strings.Contains(n, "Verif") && !strings.Contains(n, "verif") {
+		file := funcFiles[n]
+		if file == "" {
+			file = funcFiles[strings.ReplaceAll(n, "github.com/mimecast/dtail/", "")]
+		}
+		harnessFn := strings.HasPrefix(filepath.Base(file), "zz_verif") || strings.Contains(n, "/verifrt") || strings.Contains(n, "/verifh/")
+		if strings.Contains(n, "github.com/mimecast/dtail") && !harnessFn {
 			dtailFns = append(dtailFns, fe{Fn: strings.ReplaceAll(n, "github.com/mimecast/dtail/", ""), Calls: funcs[n]})
 		} else {
 			otherFns = append(otherFns, n)
